@@ -1105,6 +1105,56 @@ func ruleCounterOnlyIncrements(c *Ctx, p *Prog, rule string) {
 		})
 	}
 	_ = ctr
+	// which of the atomic variables is the session counter: the one whose increment yields
+	// the key under which the open handler stores the connection. Other atomic counters
+	// (statistics) are not the session counter.
+	if len(sites) > 1 {
+		var idAdd ssa.Instruction
+		for _, st := range Calls(se.Inner, "(*sync.Map).Store") {
+			key := Args(CallOf(st))[1]
+			for _, site := range sites {
+				sv, isV := site.(ssa.Value)
+				if !isV {
+					continue
+				}
+				if reaches, _ := DerivesFrom(key, func(v ssa.Value) bool { return v == sv }, func(ssa.Value) bool { return false }); reaches {
+					idAdd = site
+				}
+			}
+		}
+		if idAdd != nil {
+			want := PathOf(CallOf(idAdd).Args[0])
+			var mine []ssa.Instruction
+			bad = ""
+			for _, fn := range WithClosures(se.Create) {
+				EachInstr(fn, func(i ssa.Instruction) {
+					cc := CallOf(i)
+					if cc == nil || len(Args(cc)) == 0 || PathOf(Args(cc)[0]) != want {
+						return
+					}
+					n := CalleeName(cc)
+					switch {
+					case strings.HasPrefix(n, "sync/atomic.Add"):
+						mine = append(mine, i)
+						if d, ok := ConstInt(cc.Args[1]); !ok || d <= 0 {
+							bad = "the counter is modified by a non-positive or non-constant delta at " + p.Pos(i.Pos())
+						}
+					case strings.HasPrefix(n, "sync/atomic.Store"), strings.HasPrefix(n, "sync/atomic.Swap"), strings.HasPrefix(n, "sync/atomic.CompareAndSwap"):
+						mine = append(mine, i)
+						bad = "the counter is overwritten at " + p.Pos(i.Pos())
+					}
+				})
+				// plain stores to the counter
+				EachInstr(fn, func(i ssa.Instruction) {
+					if st, isSt := i.(*ssa.Store); isSt && PathOf(st.Addr) == want {
+						mine = append(mine, i)
+						bad = "the counter is overwritten at " + p.Pos(i.Pos())
+					}
+				})
+			}
+			sites = mine
+		}
+	}
 	c.Check(rule, "open:counter-only-increments", p, posOf(sites), len(sites) == 1 && bad == "", "the session counter is touched by exactly one atomic increment: numbers are never given back", fmt.Sprintf("the session counter has %d modification sites (%s): a number that is given back (decrement on a failed dial, reset) is handed out again while an earlier session still uses it — two clients share one shim session", len(sites), bad))
 }
 
